@@ -175,8 +175,21 @@ CLAIMS = {
         note="Bounce loops being impossible follows from the three sender cases by a two-line hand corollary; stripvdomprepend "
              "(virtual-domain prefix removal) and the text of the notice are not covered; qmail_close's contract is C07.",
         design_ref="DESIGN.md section 5 C14"),
+    "C10": dict(
+        text="Proof (CBMC loop contracts on the unmodified qmail-send.c rewrite(), addresses <= 52 bytes (bounded), any number of "
+             "% rounds and domain labels): default host appended iff no @; percent hack decided on the domain before "
+             "anything else; locals consulted exactly once, on the domain after the last @, and a hit wins (local, "
+             "unprefixed); otherwise virtualdomains candidates are exactly the full address, the domain, its dot-suffixes and "
+             "the catch-all, most specific first, none skipped (ghost index), first hit decides, empty tag = remote; the "
+             "record is T [tag -] address NUL; no recipient is dropped. regetcontrols(): after a HUP both tables are rebuilt "
+             "from the whole newly read files, on a read failure the old ones stay. constmap hash(): case-insensitive for "
+             "every key <= 6 bytes (bounded).",
+        note="What the control files list is configuration (constmap is a recording oracle in rewrite); the percent-hack "
+             "round itself (cut at @, last % becomes @) is checked through the loop invariant only at the level 'the probe "
+             "follows an @'; senderadd (VERP expansion) and todo_do's per-recipient conservation are not covered.",
+        design_ref="DESIGN.md section 5 C10"),
 }
 
 NOT_APPLICABLE = {p: PENDING for p in
-                  ["C10", "C13",
+                  ["C13",
                    "C17", "C20"]}
